@@ -169,6 +169,14 @@ impl VClock {
         koto::runtime::verif::reset_entry_depth();
     }
 
+    /// Like `reset`, but virtual time goes on from where it is (plus `gap` ns): what a later
+    /// operation on the same long-lived instance sees — a monotonic clock never restarts
+    pub fn reset_keep_time(&self, profile: CostProfile, granularity: u64, step_cap: u64, gap: u64) {
+        let now = self.clock.get();
+        self.reset(profile, granularity, step_cap);
+        self.clock.set(now.saturating_add(gap));
+    }
+
     pub fn now_true(&self) -> u64 {
         self.clock.get()
     }
